@@ -132,4 +132,26 @@ theorem cut_has_ns {z : Zone} {o n : LName} {t : Nat} {c : LName} (h : c ∈ cut
   rw [← get_eq_rrsetAt] at h1
   exact Option.isSome_iff_exists.1 h1
 
+theorem cut_ne_origin {z : Zone} {o n : LName} {t : Nat} {c : LName} (h : c ∈ cuts z o n t) : c ≠ o := by
+  rw [cuts_eq] at h
+  have := (List.mem_filter.1 (List.mem_reverse.1 h)).2
+  simp only [isCutP, Bool.and_eq_true, bne_iff_ne, ne_eq] at this
+  exact this.2.2
+
+/-- an owner of NS below the apex on the way to `n` is one of the cuts (for a non-DS query, or
+away from `n` itself) -/
+theorem mem_cuts_of_ns {z : Zone} {o n : LName} {t : Nat} (hn : o <:+ n) (hne : n ≠ o)
+    (hns : (rrsetAt z n T_NS).isSome = true) (ht : t ≠ T_DS) : cuts z o n t ≠ [] := by
+  rw [cuts_eq]
+  intro h
+  have hf : (suffixes n).filter (isCutP z o n t) = [] := by
+    have := congrArg List.reverse h
+    simpa using this
+  rw [List.filter_eq_nil_iff] at hf
+  have := hf n (mem_suffixes.2 (List.suffix_refl n))
+  apply this
+  have h1 : (t == T_DS) = false := beq_false_of_ne ht
+  have h2 : (n != o) = true := by simp [hne]
+  simp [isCutP, hns, h1, anc_iff.2 hn, h2]
+
 end HickoryVerif.C10
